@@ -898,6 +898,8 @@ template<class Config>
 typename Config::BaseType BitVectorState<Config>::extractNonStraddling(typename Config::Plane plane, size_t start, size_t size) const
 {
 	HCL_ASSERT(start % Config::NUM_BITS_PER_BLOCK + size <= Config::NUM_BITS_PER_BLOCK);
+	if (size == 0) // nothing to read, e.g. a zero width signal at the very end of the state (mirrors insertNonStraddling)
+		return 0;
 	HCL_ASSERT(start / Config::NUM_BITS_PER_BLOCK < m_values[plane].size());
 	return utils::bitfieldExtract(m_values[plane][start / Config::NUM_BITS_PER_BLOCK], start % Config::NUM_BITS_PER_BLOCK, size);
 }
